@@ -75,19 +75,55 @@ class _Conn:
         self.c.settimeout(WATCHDOG_S)
         self.st = UnixTransport(s)
         self.s_sock = s
-        self.th = threading.Thread(target=rig._serve_quiet, args=(self.server, self.st), daemon=True)
+        def serve_like_handle() -> None:
+            # what _serve_socket_threaded._handle (and a worker process exiting) do around serve():
+            # whatever ends the loop, the connection is closed afterwards
+            try:
+                self.server.serve(self.st)
+            except Exception as exc:  # noqa: BLE001 - recorded for the verdict
+                self.impl._serve_died = exc
+            finally:
+                import contextlib
+
+                with contextlib.suppress(Exception):
+                    self.st.close()
+
+        _ = rig
+        self.th = threading.Thread(target=serve_like_handle, daemon=True)
         self.th.start()
         self.rfile = self.c.makefile("rb")
         self.dead = False
 
-    def send(self, data: bytes) -> None:
-        self.c.sendall(data)
+    def send(self, data: bytes) -> bool:
+        try:
+            self.c.sendall(data)
+            return True
+        except OSError:
+            return False
+
+    def _wait_reply(self) -> str:
+        """Wait until reply bytes are readable; notice a dead serve thread without burning the watchdog."""
+        import select
+        import time
+
+        deadline = time.monotonic() + WATCHDOG_S
+        while time.monotonic() < deadline:
+            r, _, _ = select.select([self.c], [], [], 0.02)
+            if r:
+                return "readable"
+            if not self.th.is_alive():
+                r, _, _ = select.select([self.c], [], [], 0.05)
+                return "readable" if r else "server_dead"
+        return "timeout"
 
     def read_stream(self) -> tuple[str, Any]:
         """Read one IPC stream: ("ok", batches) | ("eof", None) | ("timeout", None) | ("garbage", exc)."""
         import pyarrow as pa
         from pyarrow import ipc
 
+        w = self._wait_reply()
+        if w != "readable":
+            return "timeout", w
         try:
             rd = ipc.open_stream(self.rfile)
             out = []
@@ -119,14 +155,20 @@ class _Conn:
 
     def close(self) -> None:
         import contextlib
+        import socket as _s
 
         if self.dead:
             return  # a reader may be parked on it; abandon
         with contextlib.suppress(Exception):
+            self.c.shutdown(_s.SHUT_RDWR)
+        with contextlib.suppress(Exception):
+            self.rfile.close()
+        with contextlib.suppress(Exception):
             self.c.close()
         self.th.join(timeout=2)
-        with contextlib.suppress(Exception):
-            self.st.close()
+        if not self.th.is_alive():
+            with contextlib.suppress(Exception):
+                self.st.close()
 
 
 def _req(method: bytes | None, schema: Any, rows: list[list[Any]] | None, md_extra: dict[bytes, bytes], version: bytes | None = b"1") -> bytes:
@@ -291,8 +333,8 @@ def run_shard(job: dict[str, Any]) -> dict[str, Any]:
         import pyarrow as pa
 
         nonce = f"n{rng.randrange(10**9)}"
-        c.send(_req(b"echo", pa.schema([pa.field("nonce", pa.string(), nullable=False)]), [[nonce]], {}))
-        st, batches = c.read_stream()
+        sent = c.send(_req(b"echo", pa.schema([pa.field("nonce", pa.string(), nullable=False)]), [[nonce]], {}))
+        st, batches = c.read_stream() if sent else ("eof", "send failed: connection closed by the server")
         if st == "timeout":
             judge_timeout(c, f"probe_after:{key}", wit)
             return False
@@ -355,7 +397,8 @@ def run_shard(job: dict[str, Any]) -> dict[str, Any]:
     # ---- leg 1: metadata grid -------------------------------------------------------------------
     for case in job["meta_cases"]:
         name, k, vclass, v = case["method"], case["key"].encode("latin1"), case["vclass"], case["value"].encode("latin1")
-        key = f"meta:{k.decode('latin1') if k.isascii() and k else repr(k)}:{vclass}:{KIND[name]}"
+        fam = "shm_metadata" if k.startswith(b"vgi_rpc.shm") else (k.decode("latin1") if k.isascii() and k else "nonascii_or_empty_key")
+        key = f"meta:{fam}"
         if k == b"vgi_rpc.shm_segment_name":
             v = {"real": seg.name.encode(), "foreign": foreign.name.encode(), "missing": b"psm_does_not_exist", "slash": b"/../etc/passwd"}.get(vclass, v)
         md = {k: v}
@@ -364,20 +407,20 @@ def run_shard(job: dict[str, Any]) -> dict[str, Any]:
         if case.get("with_name"):
             md[b"vgi_rpc.shm_segment_name"] = {"real": seg.name.encode(), "foreign": foreign.name.encode(), "missing": b"psm_nope"}[case["with_name"]]
         wit = {"method": name, "metadata": {kk.decode("latin1"): vv.decode("latin1") for kk, vv in md.items()}}
-        chk.case(f"{key}|{case.get('with_size', '')}|{case.get('with_name', '')}")
+        chk.case(f"meta:{k.decode('latin1') if k.isascii() else repr(k)}:{vclass}:{KIND[name]}|{case.get('with_size', '')}|{case.get('with_name', '')}")
         run_wellframed(name, name.encode(), _method_schema(name), _valid_row(name), md, b"1", key, wit)
     # ---- leg 2: method / version field ------------------------------------------------------------
     for case in job["head_cases"]:
         m = None if case["method"] is None else case["method"].encode("latin1")
         ver = None if case["version"] is None else case["version"].encode("latin1")
-        key = f"head:method={case['mclass']}:version={case['vclass']}"
-        chk.case(key)
+        key = f"head:method={case['mclass']}" if case["mclass"] != "valid" else f"head:version={case['vclass']}"
+        chk.case(f"head:method={case['mclass']}:version={case['vclass']}")
         run_wellframed("echo", m, _method_schema("echo"), [["x"]], {}, ver, key, {"method": case["method"], "version": case["version"]})
     # ---- leg 3: arbitrary columns -------------------------------------------------------------------
     for i in range(job["column_cases"]):
         name = rng.choice(sorted(KIND))
         schema, cols, cclass = _gen_columns(rng)
-        key = f"columns:{KIND[name]}"
+        key = "columns"
         chk.case(f"columns:{name}:{cclass}:{'/'.join(str(f.type) for f in schema)[:60]}")
         try:
             data_ok = True
